@@ -392,6 +392,43 @@ fn check_delay(ctx: &mut Ctx, idx: u64, r: &mut Rng) -> Option<(String, J)> {
 			}
 		}
 	}
+	// an effect with memory (a low-pass filter) in the feedback loop, the input cut into slices shorter than the internal
+	// buffer and shorter / longer than the delay line: every frame read from the line passes through the feedback effect
+	// exactly once, in order. The reference feeds a second instance of the same filter, frame by frame, from a model line.
+	if r.chance(0.35) {
+		let fb_db = r.f32_in(-9.0, -1.0);
+		let mix = *r.pick(&[1.0f32, 0.5, 0.3]);
+		let lp = FxSpec::Filter { mode: FilterMode::LowPass, cutoff: r.f64_in(200.0, 0.2 * sr as f64), resonance: r.f64_in(0.0, 0.5), mix: 1.0 };
+		let spec = FxSpec::Delay { time_s, feedback_db: fb_db, mix, inner: vec![lp.clone()] };
+		let n = (d_frames * 5 + 40).min(12000);
+		let x: Vec<Frame> = (0..n).map(|i| if i < 40 { Frame::new(((i * 37 % 11) as f32 - 5.0) * 0.1, ((i * 17 % 7) as f32 - 3.0) * 0.1) } else { Frame::ZERO }).collect();
+		let ibs = *r.pick(&[16usize, 128, 1000]);
+		let part: Vec<usize> = (0..5).map(|_| r.usize_in(1, ibs)).collect();
+		let y = run_effect(&spec, sr, ibs, &x, &part);
+		let mut f = lp.build();
+		f.init(sr, 1);
+		let info = crate::probes::mock_info();
+		let g = 10f64.powf(fb_db as f64 / 20.0);
+		let m = (mix as f64).clamp(0.0, 1.0);
+		let mut line: Vec<(f64, f64)> = vec![(0.0, 0.0); d_frames];
+		ctx.count("delay_filtered_feedback_frames", n as u64);
+		for i in 0..n {
+			let read = line[i % d_frames];
+			let mut one = [Frame::new(read.0 as f32, read.1 as f32)];
+			f.on_start_processing();
+			f.process(&mut one, 1.0 / sr as f64, &info);
+			let fbv = (one[0].left as f64 * g, one[0].right as f64 * g);
+			line[i % d_frames] = (x[i].left as f64 + fbv.0, x[i].right as f64 + fbv.1);
+			let (wl, wr) = (fbv.0 * m.sqrt() + x[i].left as f64 * (1.0 - m).sqrt(), fbv.1 * m.sqrt() + x[i].right as f64 * (1.0 - m).sqrt());
+			let tol = 2e-4 * (wl.abs().max(wr.abs())) + 2e-6;
+			if (y[i].left as f64 - wl).abs() > tol || (y[i].right as f64 - wr).abs() > tol {
+				return Some((
+					format!("delay of {} frames (sr {}, feedback {:.2} dB, mix {:.2}, internal buffer {}, slices {:?}) with a low-pass filter in its feedback loop: frame {} is ({:e},{:e}); feeding every frame read from the line through the filter once, in order, gives ({:e},{:e})", d_frames, sr, fb_db, mix, ibs, part, i, y[i].left, y[i].right, wl, wr),
+					detail(&spec, sr, "echoes shaped by a feedback effect with memory"),
+				));
+			}
+		}
+	}
 	if ctx.want_sample() && idx % 7 == 2 {
 		ctx.sample(detail(&spec, sr, "delay: impulse response vs echoes at k*D scaled by feedback^k"));
 	}
